@@ -326,9 +326,10 @@ def check_property(prop, tier, seed, jobs=16):
         cov["rule"] = bounded.get("rule", "")
     ev = {"property_id": prop, "tier": tier, "seed": seed, "level": level, "coverage": cov, "assumptions": assumptions,
           "wall_s": round(wall, 2), "violations": len(violations)}
-    os.makedirs(os.path.join(ROOT, "evidence"), exist_ok=True)
-    with open(os.path.join(ROOT, "evidence", f"{prop}.json"), "w") as fh:
-        json.dump(ev, fh, indent=1, default=str)
+    if not os.environ.get("PYVC_NO_EVIDENCE"):
+        os.makedirs(os.path.join(ROOT, "evidence"), exist_ok=True)
+        with open(os.path.join(ROOT, "evidence", f"{prop}.json"), "w") as fh:
+            json.dump(ev, fh, indent=1, default=str)
     for ln in lines:
         print(ln)
     print(f"[{prop}] functions={len(funcs)} obligations={n_obl} discharged={n_dis} failed={len(failed)} known={len(kf_out)} "
